@@ -904,3 +904,22 @@ def fam_clone_guards():
                 prog = dict(tick=0.125, inits=list(ENV_INITS),
                             framers=[dict(name="m", schedule="active", frames=[dict(name="f0", items=f0)]), mo])
                 yield ("cloneguards/%s/%s/%s" % (gname, "first" if first_guarded else "second", "+".join(tags)), prog, dict())
+
+
+G_ALPHABET = [None, {"g.x": 1}, {"g.x": 2}, {"v": 1}, {"v": 2}]
+
+
+def fam_indirect_goals():
+    """comparison with the goal read from ANOTHER share (`v == g.x [+- tol]`, all six operators, plain and negated)
+    while the environment rewrites the goal share before AND after the framer inside one tick (same store stamp)."""
+    ctxs = ("enter", "exit")
+    for op in ("==", "!=", "<", "<=", ">", ">="):
+        for tol in (None, 0.25):
+            if tol is not None and op not in ("==", "!="):
+                continue
+            for neg in (False, True):
+                n = ("cmpi", "v", op, "g.x", tol, neg)
+                frames = [dict(name="A", items=recs("A", ctxs) + [("go", "B", [n])]),
+                          dict(name="B", items=recs("B", ctxs) + [("go", "A", [("cmpi", "v", op, "g.x", tol, not neg)])])]
+                yield ("indirect/%s/tol%s/neg%d" % (op, tol, neg),
+                       dict(tick=0.125, inits=[("v", 1), ("g.x", 2)], framers=[dict(name="m", schedule="active", frames=frames)]), dict())
